@@ -1,6 +1,6 @@
 SPECIFICATION Spec
 CONSTANTS
-  MaxCalls = 4
+  MaxCalls = 3
 INVARIANT ConformingNeverBlamed
 INVARIANT StaleBlamedOnlyWhenWrong
 INVARIANT FaultyBlamedOnlyWhenWrong
